@@ -17,6 +17,7 @@ import json
 import common
 import gen_common as G
 import gen_checks as GC
+import gen_main2
 from common import coq_string, coq_list, coq_Z
 
 PID = 'C07'
@@ -206,7 +207,7 @@ def run(ctx):
               'exogenous non-unit time-varying XR paths, 1-3 registered cross-zone gifts, 0-2 cross-zone suppliers '
               '(imports), optional gold-standard government; targets valued-zero / numeraire-zero / cross-rate '
               'definitions; plus random _SendMoney/_ReceiveMoney sequences against the Fx.v model'))
-    out.proof = common.proof_status(FAMILY, PROPFILE)
+    out.proof = common.proof_status_many([(FAMILY, PROPFILE)] + gen_main2.PROOFS)
     # (a) bookkeeping correspondence
     n = ctx.scale(300, 4000)
     cases, cmeta = [], []
@@ -235,6 +236,9 @@ def run(ctx):
         'cut / non-zero hints untrusted']
     out.assumptions = ['exchange rates of receiving currencies are non-zero',
                        'topologies covered per generated program; valuations, rate paths and periods by the theorems']
+    # whole-pipeline model of Model.main() for programs with several currency zones (coq/GenMain2, Main2.build2):
+    # Main2_fx_valued_zero holds for ALL programs of the language; tied by the whole-program correspondence
+    gen_main2.extra(ctx, out, 40, 500)
     return out
 
 
@@ -248,6 +252,8 @@ def replay(path):
             print('FAILS:', f['what'][:300])
         print('replay: %s' % ('property violated' if fails else 'property holds on this input'))
         return 1 if fails else 0
+    if r.get('kind') == 'main2':
+        return gen_main2.replay(obj)
     if r.get('kind') == 'refused':
         fails = refused_oracle()
         for f in fails:
